@@ -38,6 +38,7 @@ _assumed("PinWords.has_finite_wedges_type_2", "W2")
 
 @contract("PinWords.has_finite_pinperms", params={"cls": "none", "basis": BASIS, "use_db": "bool", "dfa": "none"}, returns="bool", props=P, assumed=True)
 class PinPermsAssumed:
+    runtime_tempcwd = True
     defaults = {"use_db": False, "dfa": None}
 
     def requires(c, cls, basis, use_db, dfa):
@@ -61,6 +62,7 @@ class SpecialSimples:
 
 @contract("PinWords.has_finite_simples", params={"cls": "none", "basis": BASIS, "use_db": "bool", "check_all": "bool", "dfa": "none"}, returns="bool", props=P)
 class HasFiniteSimples:
+    runtime_tempcwd = True  # use_db=True reads / writes dfa_db/ relative to the working directory
     # finitely many simples iff none of the four families is unbounded - however it is queried
     defaults = {"use_db": False, "check_all": False, "dfa": None}
 
